@@ -117,6 +117,7 @@ func c16(c *Ctx) {
 			var calls []J
 			var got []interface{}
 			var commands []string
+			var shownL []bool
 			unchanged := true
 			for k := 0; k < ncalls; k++ {
 				if k == 0 || r.Chance(2, 3) {
@@ -130,7 +131,10 @@ func c16(c *Ctx) {
 					extra = extra[:0]
 				}
 				extraSnap := snapshot(extra)
-				calls = append(calls, J{"extra": append([]string{}, extra...), "env": envNow()})
+				// the verbosity of the moment of the call decides whether the command's stdout is shown (like sh.Run), not
+				// the verbosity of the moment the closure was made
+				verboseNow := !useOut && r.Chance(1, 3)
+				calls = append(calls, J{"extra": append([]string{}, extra...), "env": envNow(), "verbose": verboseNow})
 				if useOut {
 					o, err := outc(extra...)
 					if err != nil {
@@ -144,7 +148,14 @@ func c16(c *Ctx) {
 					os.Remove(rep)
 					b, _ := json.Marshal(map[string]interface{}{"code": 0, "echo": true, "report": rep})
 					os.WriteFile(specPath, b, 0o644)
+					if verboseNow {
+						os.Setenv("MAGEFILE_VERBOSE", "1")
+					}
+					sw := swapStd(tmp, nil)
 					err := run(extra...)
+					shownOut, _ := sw.restore()
+					os.Setenv("MAGEFILE_VERBOSE", "0")
+					shownL = append(shownL, len(shownOut) > 0)
 					b2, _ := json.Marshal(map[string]interface{}{"code": 0, "echo": true})
 					os.WriteFile(specPath, b2, 0o644)
 					if err != nil {
@@ -182,8 +193,14 @@ func c16(c *Ctx) {
 				sp = "spare"
 			}
 			os.Setenv("VT_CMDW", child)
-			in := J{"op": "c16.history", "baked": append([]string{}, baked...), "spare": cap(baked) - len(baked), "calls": calls}
+			in := J{"op": "c16.history", "baked": append([]string{}, baked...), "spare": cap(baked) - len(baked), "calls": calls, "run": !useOut}
 			impl := J{"argvs": got, "callerUnchanged": unchanged}
+			if !useOut {
+				if shownL == nil {
+					shownL = []bool{}
+				}
+				impl["shown"] = shownL
+			}
 			if viaVar {
 				in["cmdWord"] = cmdWord
 				impl["commands"] = commands
